@@ -12,7 +12,7 @@
    [pl v]: the three card entries of a vector. *)
 From Coq Require Import List ZArith NArith Bool Reals Lra.
 From T4V Require Import Base.Scalar C03.Vec C03.Model C03.Spec C03.ProofsPlanes
-  C03.ProofsQuad C03.ProofsArb C03.ProofsExpand C03.Proofs.
+  C03.ProofsQuad C03.ProofsArb C03.ProofsExpand C03.ProofsFacet C03.Proofs.
 Import ListNotations.
 Open Scope R_scope.
 
@@ -243,6 +243,41 @@ Theorem C03_arb_inside : forall (V : list pt) (descr : list N),
      <-> some_positive es p).
 Proof. exact arb_inside_ok. Qed.
 Print Assumptions C03_arb_inside.
+
+(* the centroid is strictly inside every admissible facet's half-space: the
+   ARB Spec ("outward = away from the centroid") is not vacuous *)
+Theorem C03_arb_centroid_inside : forall (vs : list pt) (facets : list (list nat)),
+  Forall (facet_admissible vs (centroid_of vs)) facets ->
+  inside_of (arb_facets vs facets) (centroid_of vs).
+Proof. exact arb_centroid_inside. Qed.
+Print Assumptions C03_arb_centroid_inside.
+
+(* parse_facet: the descriptor written with decimal digits ds (any length,
+   zeros anywhere) gives the non-zero digits minus one, in order *)
+Theorem C03_parse_facet_digits : forall ds : list N,
+  Forall (fun d => (d < 10)%N) ds ->
+  parse_facet (of_digits ds) = vertex_numbers ds.
+Proof. exact parse_facet_digits. Qed.
+Print Assumptions C03_parse_facet_digits.
+
+(* ---------------- error branches ---------------- *)
+(* check_params_length: any other number of entries is a MacroBodyError *)
+Theorem C03_wrong_count_rejected : forall (b : body) (p : list R) (d : list N),
+  ~ In (List.length p) (expected_lengths b) ->
+  body_parts RS b p d = Err EMacroBody.
+Proof. exact wrong_count_rejected. Qed.
+Print Assumptions C03_wrong_count_rejected.
+
+Theorem C03_arb_wrong_descriptor_count : forall (p : list R) (d : list N),
+  List.length d <> 6%nat -> arb RS p d = Err EMacroBody.
+Proof. exact arb_wrong_descriptor_count. Qed.
+Print Assumptions C03_arb_wrong_descriptor_count.
+
+(* TRC with equal radii (MCNP forbids it): ZeroDivisionError, no output *)
+Theorem C03_trc_equal_radii_error : forall (v h : pt) (r : R),
+  trc RS (pl v ++ pl h ++ [r; r]) = Err EZeroDiv.
+Proof. exact trc_equal_radii_error. Qed.
+Print Assumptions C03_trc_equal_radii_error.
 
 (* ---------------- sides, numbering, references in a cell ---------------- *)
 Theorem C03_sides_pm1 : forall b p d es,
